@@ -38,7 +38,8 @@ theorem C12_zero_interval (verify : Bool) (total : Nat) (evs : List Ev)
 
 /-- … in particular the distinct values of the done-counter are 1, 2, …, n in this order -/
 theorem C12_zero_interval_counts (verify : Bool) (total : Nat) (evs : List Ev)
-    (hclk : ClockMono (-1) evs) (hexc : ∀ e ∈ evs, e.kind = .exc → 1 ≤ e.nexc) (i : Nat) (hi : i < evs.length) :
+    (hclk : ClockMono (-1) evs) (hexc : ∀ e ∈ evs, e.kind = .exc → verify = true ∧ 1 ≤ e.nexc)
+    (i : Nat) (hi : i < evs.length) :
     ∃ c ∈ calls verify 0 total evs, c.done = i + 1 := by
   rw [C12_zero_interval verify total evs hclk]
   have hmem : (evs[i], i + 1) ∈ evs.zipIdx 1 := by
@@ -47,14 +48,20 @@ theorem C12_zero_interval_counts (verify : Bool) (total : Nat) (evs : List Ev)
   have hne : emit verify (i + 1) evs[i] ≠ [] := by
     unfold emit
     cases verify with
-    | false => simp
+    | false =>
+      simp only [Bool.false_eq_true, if_false]
+      cases hk : evs[i].kind <;> simp only
+      · simp
+      · simp
+      · simp
+      · exact absurd (hexc evs[i] (List.getElem_mem hi) hk).1 (by simp)
     | true =>
       simp only [if_true]
       cases hk : evs[i].kind <;> simp only
       · simp
       · simp
       · simp
-      · have := hexc evs[i] (List.getElem_mem hi) hk
+      · have := (hexc evs[i] (List.getElem_mem hi) hk).2
         intro h0
         have hl := congrArg List.length h0
         simp at hl; omega
@@ -63,11 +70,13 @@ theorem C12_zero_interval_counts (verify : Bool) (total : Nat) (evs : List Ev)
   rw [List.mem_flatMap]
   exact ⟨(evs[i], i + 1), hmem, hc⟩
 
-/-- unless the run is cancelled (all `total` results collected) the last call reports
-    `done = total`, whatever reporting interval is requested and whatever the clock does -/
+/-- unless the run is cancelled or raises (all `total` results collected; in a hashing run no
+    result is an error item — `generate()` raises it —, in a verification every error item carries
+    at least one exception) the last call reports `done = total`, whatever reporting interval is
+    requested and whatever the clock does -/
 theorem C12_final (verify : Bool) (interval : Int) (total : Nat) (evs : List Ev)
     (hlen : evs.length = total) (hpos : 0 < total)
-    (hexc : ∀ e ∈ evs, e.kind = .exc → 1 ≤ e.nexc) :
+    (hexc : ∀ e ∈ evs, e.kind = .exc → verify = true ∧ 1 ≤ e.nexc) :
     ∃ c, (calls verify interval total evs).getLast? = some c ∧ c.done = total := by
   rw [calls_eq]
   have hne : evs ≠ [] := by intro h0; subst h0; simp at hlen; omega
